@@ -234,7 +234,7 @@ pub fn show_res(m: &Model, r: &Res) -> String {
 }
 
 pub fn cfg() -> GenCfg {
-    GenCfg { names: 4, allow_dups_in_file: true, ..GenCfg::default() }
+    GenCfg { names: 4, allow_dups_in_file: true, oneline_fixtures: true, ..GenCfg::default() }
 }
 
 pub fn run(ctx: &Ctx) {
@@ -253,7 +253,7 @@ pub fn run(ctx: &Ctx) {
 }
 
 pub fn lsp_cfg() -> GenCfg {
-    GenCfg { names: 3, max_depth: 3, max_items: 3, allow_dups_in_file: true, ..GenCfg::default() }
+    GenCfg { names: 3, max_depth: 3, max_items: 3, allow_dups_in_file: true, oneline_fixtures: true, ..GenCfg::default() }
 }
 
 pub fn judge(ctx: &Ctx, sub: &str, case: &Value) -> Option<Outcome> {
